@@ -172,6 +172,10 @@ var clusters = []cluster{
 	{"a_bslash", "delim", sv(`a\`, `A\`)},
 	{"bslash_colon", "delim", sv(`a\:b`, `A\:B`)},
 	{"bslash_colon_end", "delim", sv(`a\:`)},
+	{"a_bslash2", "delim", sv(`a\\`, `A\\`)},
+	{"bslash_colon_only", "delim", sv(`\:`, `\\:`)},
+	{"a_colon_bslash", "delim", sv(`a:\`, `a:b\`)},
+	{"mSa_bslash", "delim", sv(`[S]a\`, `:[S]a\`)},
 }
 
 func clusterIdx(class string) []int {
@@ -324,7 +328,7 @@ func keyPart(v val.Val, strict bool) (string, bool) {
 	return "", false
 }
 
-var atomStrings = []string{"x", "y", "z", "Q", "ab", "k9", "w_", "é", `b\`, `\`}
+var atomStrings = []string{"x", "y", "z", "Q", "ab", "k9", "w_", "é", `b\`, `\`, `q\\`, `c\:`}
 
 func genAtom(t *rapid.T, csv bool, mustBeText bool) val.Val {
 	if mustBeText {
@@ -349,42 +353,145 @@ func genAtom(t *rapid.T, csv bool, mustBeText bool) val.Val {
 	return v
 }
 
-// genCollidingPair builds two different n-column tuples out of n+1 atoms: one
-// tuple glues atoms i and i+1 into column i, the other atoms j and j+1 into
-// column j (i != j), where glueing writes the second atom the way it would
-// appear inside an unescaped key.
+var bsSuffixes = []string{"", "", "", "", "", "", `\`, `\`, `\\`}
+
+// genCollidingPair plants two different n-column tuples that an unescaped or
+// badly escaped key serialisation could map to one key. Two constructions:
+// (a) the same sequence of n+1 or n+2 atoms cut into n columns in two
+// different ways, atoms inside one column glued with the separator + the
+// marker the next atom would get inside a serialised key; text atoms may end
+// in backslashes; (b) a pair in which a run of backslashes sits before the
+// column boundary in one tuple and before the glued ':' in the other, which is
+// what an escaping of ':' that does not escape the escape character confuses.
 func genCollidingPair(t *rapid.T, n int, csv, strict bool, withSeparator bool) ([]val.Val, []val.Val) {
-	i := fw.Uniform(t, "glueA", n)
-	j := fw.Uniform(t, "glueB", n-1)
-	if j >= i {
-		j++
+	if withSeparator && fw.Pct(t, "shiftedPair", 35) {
+		return genShiftedPair(t, n, csv, strict)
 	}
-	atoms := make([]val.Val, n+1)
-	for p := range atoms {
-		atoms[p] = genAtom(t, csv, p == i || p == j)
+	return genSegmentedPair(t, n, csv, strict, withSeparator)
+}
+
+func gluePart(v val.Val, strict bool) string {
+	part, ok := keyPart(v, strict)
+	if !ok {
+		part = "[S]" + v.S
 	}
-	// mostly the real separator; sometimes none (keys simply concatenated)
-	sep := ":"
-	if !withSeparator || fw.Pct(t, "noSeparator", 12) {
-		sep = ""
+	return part
+}
+
+func genSegmentedPair(t *rapid.T, n int, csv, strict bool, withSeparator bool) ([]val.Val, []val.Val) {
+	extras := 1
+	if fw.Pct(t, "twoExtraAtoms", 25) {
+		extras = 2
 	}
-	build := func(g int) []val.Val {
-		var out []val.Val
-		for p := 0; p <= n; p++ {
-			if p == g {
-				part, ok := keyPart(atoms[p+1], strict)
-				if !ok {
-					part = "[S]" + atoms[p+1].S
-				}
-				out = append(out, val.Str(atoms[p].S+sep+part))
-				p++
-				continue
+	m := n + extras
+	compose := func(label string) []int {
+		cnt := make([]int, n)
+		for i := range cnt {
+			cnt[i] = 1
+		}
+		for e := 0; e < extras; e++ {
+			cnt[fw.Uniform(t, label, n)]++
+		}
+		return cnt
+	}
+	same := func(a, b []int) bool {
+		for i := range a {
+			if a[i] != b[i] {
+				return false
 			}
-			out = append(out, atoms[p])
+		}
+		return true
+	}
+	ca, cb := compose("compA"), compose("compB")
+	if same(ca, cb) {
+		// rotate: a different composition because some column holds more than one atom
+		cb = append(append([]int(nil), ca[1:]...), ca[0])
+		if same(ca, cb) {
+			// all columns equal (n = 2, two extras, one each): move one atom
+			cb = append([]int(nil), ca...)
+			cb[0]++
+			cb[1]--
+		}
+	}
+	mustText := make([]bool, m)
+	for _, c := range [][]int{ca, cb} {
+		p := 0
+		for _, k := range c {
+			if k > 1 {
+				mustText[p] = true
+			}
+			p += k
+		}
+	}
+	atoms := make([]val.Val, m)
+	for p := range atoms {
+		atoms[p] = genAtom(t, csv, mustText[p])
+		if atoms[p].K == "S" {
+			atoms[p] = val.Str(atoms[p].S + fw.PickU(t, "bsSuffix", bsSuffixes))
+		}
+	}
+	// mostly the real separator; sometimes none (keys simply concatenated) or
+	// an already "escaped" one
+	sep := ":"
+	if !withSeparator {
+		sep = ""
+	} else {
+		sep = []string{":", "", `\:`, `\\:`}[fw.Weighted(t, "glue", []int{70, 12, 9, 9})]
+	}
+	build := func(c []int) []val.Val {
+		var out []val.Val
+		p := 0
+		for _, k := range c {
+			if k == 1 {
+				out = append(out, atoms[p])
+			} else {
+				text := atoms[p].S
+				for q := 1; q < k; q++ {
+					text += sep + gluePart(atoms[p+q], strict)
+				}
+				out = append(out, val.Str(text))
+			}
+			p += k
 		}
 		return out
 	}
-	return build(i), build(j)
+	return build(ca), build(cb)
+}
+
+var plainAtomStrings = []string{"x", "y", "z", "Q", "ab", "k9"}
+var bsRuns = []string{"", `\`, `\\`, `\\\`}
+
+// genShiftedPair: columns c and c+1 are (p E1, q E2 ":" M r) in one tuple and
+// (p E3 ":[S]" q E4, r) in the other, E* runs of backslashes; the other
+// columns are the same in both.
+func genShiftedPair(t *rapid.T, n int, csv, strict bool) ([]val.Val, []val.Val) {
+	c := fw.Uniform(t, "shiftCol", n-1)
+	p := fw.PickU(t, "shiftP", plainAtomStrings)
+	q := fw.PickU(t, "shiftQ", plainAtomStrings)
+	r := genAtom(t, csv, false)
+	var e [4]string
+	if fw.Pct(t, "pureShift", 60) {
+		x := bsRuns[1+fw.Uniform(t, "shiftRun", len(bsRuns)-1)]
+		e = [4]string{x, "", "", x}
+	} else {
+		for i := range e {
+			e[i] = bsRuns[fw.Weighted(t, "run", []int{40, 35, 15, 10})]
+		}
+	}
+	a := make([]val.Val, n)
+	b := make([]val.Val, n)
+	for i := 0; i < n; i++ {
+		if i == c || i == c+1 {
+			continue
+		}
+		a[i] = genAtom(t, csv, false)
+		b[i] = a[i]
+	}
+	a[c] = val.Str(p + e[0])
+	a[c+1] = val.Str(q + e[1] + ":" + gluePart(r, strict))
+	b[c] = val.Str(p + e[2] + ":[S]" + q + e[3])
+	b[c+1] = r
+	return a, b
 }
 
 // ---------------------------------------------------------------------
